@@ -44,7 +44,8 @@ CONSTANTS
                         \*        downloaded certificate must hash to its id before a cache hit
     MaxAlter,           \* 1 or 2: field alterations per tampered certificate
     TamperFields,       \* subset of AllTamperFields used for tampering
-    ForgeKeys, ForgePars, ForgeNextAvk, ForgeNextPars,   \* domains of forged certificates
+    ForgeEpochs, ForgeKeys, ForgePars, ForgeNextAvk, ForgeNextPars,   \* domains of forged certificates
+    Forge2Pars,         \* parameter ids used on the second forging level
     ForgeLevels         \* 1: forged certificates link to honest ones; 2: also to forged ones
 
 N        == Len(Shape)
@@ -109,11 +110,13 @@ Alter1(c) ==
             v \in (Pars \cup {"none"}) \ {c.nextParams}, s \in BOOLEAN} ELSE {})
     \cup (IF "signedMsg" \in TamperFields /\ c.signedMsgOk THEN
         {[tag |-> "signedMsg", c |-> [c EXCEPT !.signedMsgOk = FALSE, !.sigBy = "none"]]} ELSE {})
-    \cup (IF "sig" \in TamperFields THEN
+    \cup (IF "sig" \in TamperFields /\ c.kind = "std" THEN
         {[tag |-> "sig=" \o v, c |-> [c EXCEPT !.sigBy = v]] : v \in (Keys \cup {"none"}) \ {c.sigBy}} ELSE {})
     \cup (IF "kind" \in TamperFields THEN
-        {[tag |-> "kind", c |-> [c EXCEPT !.kind = IF @ = "genesis" THEN "std" ELSE "genesis"]]} ELSE {})
-    \cup (IF "genSig" \in TamperFields THEN
+        \* the other signature variant: a multi-signature nobody made / somebody else's genesis signature
+        {[tag |-> "kind", c |-> [c EXCEPT !.kind = IF @ = "genesis" THEN "std" ELSE "genesis",
+                                          !.sigBy = "none", !.genSigOk = FALSE]]} ELSE {})
+    \cup (IF "genSig" \in TamperFields /\ c.kind = "genesis" THEN
         {[tag |-> "genSig", c |-> [c EXCEPT !.genSigOk = ~@]]} ELSE {})
 
 Alter2(c) == UNION {{[tag |-> a.tag \o "," \o b.tag, c |-> b.c] : b \in Alter1(a.c)} : a \in Alter1(c)}
@@ -131,20 +134,23 @@ Tampered(c) ==
 (* claims about epoch, parameters and what it commits to for the next     *)
 (* epoch, linked to any id of `targets`.                                  *)
 (***************************************************************************)
-Forged(targets) ==
+ForgedOver(targets, keys, pars, navks, npars) ==
     {[id |-> "f(" \o pv \o "," \o ToString(e) \o k \o pa \o na \o np \o ")", prev |-> pv, epoch |-> e,
       kind |-> "std", avk |-> k, params |-> pa, msgEpoch |-> e, nextAvk |-> na, nextParams |-> np,
       hashOk |-> TRUE, signedMsgOk |-> TRUE, sigBy |-> k, genSigOk |-> FALSE] :
-        pv \in targets, e \in Epochs, k \in ForgeKeys, pa \in ForgePars,
-        na \in ForgeNextAvk, np \in ForgeNextPars}
+        pv \in targets, e \in ForgeEpochs, k \in keys, pa \in pars, na \in navks, np \in npars}
 
 (* a genesis certificate signed by somebody else's key *)
 RogueGenesis == [Honest(1) EXCEPT !.id = "h1~rogue", !.genSigOk = FALSE, !.nextAvk = "A"]
 
 TamperedAll == UNION {Tampered(h) : h \in HonestSet}
-Forged1     == Forged(HonestIds \cup {RogueGenesis.id})
+Forged1     == ForgedOver(HonestIds \cup {RogueGenesis.id}, ForgeKeys, ForgePars, ForgeNextAvk, ForgeNextPars)
+(* second level: the adversary's own key set on top of its own forged certificates *)
 Forged2     == IF ForgeLevels >= 2
-               THEN Forged({f.id : f \in {g \in Forged1 : g.avk = "A" /\ g.nextAvk = "A"}})
+               THEN ForgedOver({g.id : g \in {f \in Forged1 : f.avk = "A" /\ f.nextAvk = "A"
+                                                              /\ f.params \in Forge2Pars
+                                                              /\ f.nextParams \in Forge2Pars}},
+                               {"A"}, Forge2Pars, {"A"}, Forge2Pars)
                ELSE {}
 Universe    == HonestSet \cup TamperedAll \cup {RogueGenesis} \cup Forged1 \cup Forged2
 
